@@ -486,6 +486,10 @@ def str_format(ip, st, fmt, args, kwargs):
                 continue
             j = fmt.index('}', i)
             field = fmt[i + 1:j]
+            int_only = False
+            if field.endswith(':d') and not any(c in field[:-2] for c in ':!.['):
+                # '{:d}' / '{0:d}': decimal rendering of an int (same text as '{}' for an int; anything else raises ValueError in CPython)
+                field, int_only = field[:-2], True
             if ':' in field or '!' in field or '.' in field or '[' in field:
                 raise Unsupported('format field %r with symbolic argument' % field)
             if field == '':
@@ -497,7 +501,9 @@ def str_format(ip, st, fmt, args, kwargs):
                 a = kwargs[field]
             parts.append(lit)
             lit = ''
-            parts.append(to_str(ip, st, a))
+            if int_only and not (isinstance(a, int) or (isinstance(a, Sym) and a.ty in ('int', 'bool'))):
+                raise Unsupported("format field ':d' with a non-integer argument")
+            parts.append(to_str(ip, st, a) if not isinstance(a, bool) else str(int(a)))
             i = j + 1
             continue
         if ch == '}':
